@@ -22,9 +22,11 @@ package dmap
 //@   ensures #nonnil: result.1 == nil ==> result.0 != nil && result.0.s == s
 
 //@ func (dm *DMap) Get(ctx context.Context, key string) (storage.Entry, error)
-//@   props C16
+//@   props C16 C08
 //@   trusted
+//@   flag clock
 //@   ensures #nonnil: result.1 == nil ==> result.0 != nil
+//@   ensures #nothing_on_error: result.1 != nil ==> result.0 == nil
 
 //@ func (dm *DMap) getOnFragment(e *env) (storage.Entry, error)
 //@   props C16
@@ -470,6 +472,8 @@ package dmap
 //@   ensures #all_groups [C15] internal: result.1 == nil ==> forall k Ref :: dom(members)[k] ==> visited(k)
 //@   loop 0 invariant #grouping: members != nil && routed_deletes == old(routed_deletes)
 //@   loop 1 invariant #groups: members != nil && routed_deletes == old(routed_deletes)
+//@   flag frame_assumed
+//@   modifies net_acks, routed_deletes, DeleteMisses.counter, DeleteHits.counter, every(dm.engine.has), every(dm.engine.count), every(dm.engine.inuse), every(dm.engine.la)
 
 // ---------------------------------------------------------------------------------------------------
 // C10: eviction. Deleting a key everywhere talks to other members; only its effect on this fragment is assumed.
@@ -633,3 +637,54 @@ package dmap
 //@                e.fragment.storage.val[e.hkey] == bstrAt(elems(e.value), off(e.value)+29+e.value[0], be32(e.value, 25+e.value[0]))
 //@   modifies e.fragment, EntriesTotal.counter, every(e.fragment.storage.has), every(e.fragment.storage.key), every(e.fragment.storage.val), every(e.fragment.storage.ttl),
 //@            every(e.fragment.storage.ts), every(e.fragment.storage.la), every(e.fragment.storage.count), every(e.fragment.storage.inuse)
+
+// ---------------------------------------------------------------------------------------------------
+// C08: token safety of the distributed lock. A lock is an entry whose value is the holder's token. Unlock and
+// Lease act only when the presented token is the stored one (and, for Lease, the lock has not expired); otherwise
+// they answer no-such-lock and change nothing. Effects are counted by ghosts: routed_deletes (deleteKeys) and
+// lease_updates (Expire).
+//@ ghost var lease_updates int
+
+//@ func (dm *DMap) Expire(ctx context.Context, key string, timeout time.Duration) error
+//@   props C08
+//@   trusted
+//@   flag clock
+//@   ensures #counted: lease_updates == old(lease_updates) + 1
+//@   modifies lease_updates, net_acks
+
+//@ func (dm *DMap) unlockKey(ctx context.Context, key string, token []byte) error
+//@   props C08
+//@   flag wired 3
+//@   flag skip nil
+//@   requires #parts: dm.s.parts() && dm.s.primary.count > 0 && dm.s.backup.count > 0
+//@   ensures #wrong_token_refused [C08] internal: entry != nil && bstr(entry.value) != bstr(token) ==> result == ErrNoSuchLock && routed_deletes == old(routed_deletes)
+//@   ensures #released_only_with_the_token [C08] internal: routed_deletes != old(routed_deletes) ==> entry != nil && bstr(entry.value) == bstr(token) && routed_deletes == old(routed_deletes) + 1
+//@   ensures #success_means_released [C08]: result == nil ==> routed_deletes == old(routed_deletes) + 1
+
+//@ func (dm *DMap) leaseKey(ctx context.Context, key string, token []byte, timeout time.Duration) error
+//@   props C08
+//@   flag clock
+//@   flag wired 3
+//@   flag skip nil
+//@   ensures #wrong_token_refused [C08] internal: e != nil && bstr(e.value) != bstr(token) ==> result == ErrNoSuchLock && lease_updates == old(lease_updates)
+//@   ensures #expired_lock_refused [C08] internal: e != nil && e.ttl > 0 && deadAt(e.ttl, old(now())) ==> result == ErrNoSuchLock && lease_updates == old(lease_updates)
+//@   ensures #extended_only_by_the_live_holder [C08] internal: lease_updates != old(lease_updates) ==> e != nil && bstr(e.value) == bstr(token) &&
+//@                (e.ttl <= 0 || !deadAt(e.ttl, old(now()))) && lease_updates == old(lease_updates) + 1
+//@   ensures #success_means_extended [C08]: result == nil ==> lease_updates == old(lease_updates) + 1
+
+// Taking a lock is a conditional write: only if the key is absent (NX), with the timeout as expiry when one is
+// given, the token as value.
+//@ func (dm *DMap) tryLock(e *env, deadline time.Duration) error
+//@   props C08
+//@   trusted
+//@   flag clock
+//@   modifies e.hkey, e.fragment, e.timeout, net_acks
+
+//@ func (dm *DMap) Lock(ctx context.Context, key string, timeout time.Duration, deadline time.Duration) ([]byte, error)
+//@   props C08
+//@   flag wired 3
+//@   flag skip nil
+//@   ensures #conditional_write [C08] internal: pc.HasNX && !pc.HasXX && !pc.OnlyUpdateTTL && !pc.HasEX && !pc.HasEXAT && !pc.HasPXAT
+//@   ensures #timeout_is_the_expiry [C08] internal: (timeout >= 0 ==> pc.HasPX == (timeout / 1000000 != 0)) && (pc.HasPX ==> pc.PX == timeout)
+//@   ensures #token_is_the_value [C08] internal: e.value == token && e.key == key && e.dmap == dm.name && len(token) == 16
+//@   ensures #token_returned [C08] internal: result.1 == nil ==> result.0 == token
